@@ -122,6 +122,8 @@ def history_part(rep, tier):
 def run(rep, tier):
     structural_obligations(rep)
     kernels.run_scope(rep, [COMP])
+    from vf.pyvc import tensors
+    tensors.run_tensor_contracts(rep, ["C13"])        # the stored axis order is the member order after reorder / measure
     history_part(rep, tier)
     seed = common.seed()
     sample = (opcells.single_target_cells(tier, seed)[::9] + opcells.multi_target_cells(tier, seed)[::7] + morecells.structural_cells(tier, seed)[::9]
